@@ -20,7 +20,8 @@ import numpy as np
 
 from . import core
 from .core import Case, cD, cZ, cN, clist, cbool
-from .c09 import _cloud, _lattice, _distinct_values, _fix_weights, _cd, _cdl, _cdll, _fmt
+from .c09 import (_cloud, _lattice, _distinct_values, _fix_weights, _cd, _cdl, _cdll, _fmt, _same, LAYOUTS,
+                  apply_layout, first_call_args, cast_variant)
 
 ID = "C10"
 PROPS_FILE = "Props/C10.v"
@@ -33,7 +34,11 @@ RULE = ("BlockMean.filter: clouds of 1..60 points (uniform / clustered / 2-D gri
         "variance is just below / above the tolerance; uncertainty=True without weights. variance_to_weights: "
         "arrays of 0..12 values drawn from {0, tol, nextafter(tol, +-), 1e-16, 1e-100, negatives, NaN, 1e100, ordinary "
         "values}, shapes 1-D/2-D, lists, integer input, tuples of 1..3 components with different minima, tolerances "
-        "default/0/1e-3/0.5/2. A BlockMean case is non-trivial when it returns with >= 2 blocks of different "
+        "default/0/1e-3/0.5/2, plus float32 / int64 / int32 variance arrays (values away from the tolerance) and 2-D arrays in mixed "
+        "memory layouts. About 30 % of the BlockMean cases (and fixed edge cases) hold integer values in int64 / int32 / float32 "
+        "arrays (data, weights, coordinates; float32 compared within 2^-20), 2-D inputs come in mixed memory layouts (C, Fortran, "
+        "transposed, strided, negative strides; a different one per array) and a quarter of the cases are observed on an instance "
+        "that has already filtered other data (result must be bitwise that of a fresh instance). A BlockMean case is non-trivial when it returns with >= 2 blocks of different "
         "population; a variance_to_weights case when some variance is above and some at or below the tolerance or NaN.")
 ASSUMPTIONS = [
     "pandas groupby / numpy.unique as for C09 (executable specifications groupby / ukeys, re-validated on every run); labels and block centres observed from verde.block_split",
@@ -75,14 +80,24 @@ def probe_ddof(vd):
 # ---------------------------------------------------------------------------
 # BlockMean.filter
 # ---------------------------------------------------------------------------
-def observe_bm(vd, coords, data, weights, kw, tuple1):
+def observe_bm(vd, coords, data, weights, kw, tuple1, twice=False):
     arrays = list(coords) + list(data) + (list(weights) if weights is not None else [])
     before = [a.tobytes() for a in arrays]
+    stale = False
     try:
         bm = vd.BlockMean(**kw)
         d = tuple(data) if len(data) != 1 or tuple1 else data[0]
         w = None if weights is None else (tuple(weights) if len(weights) != 1 else weights[0])
+        if twice:
+            # the instance has already filtered other data; the result must be that of a fresh instance
+            try:
+                bm.filter(*first_call_args(coords, data, weights, True))
+            except Exception:
+                pass
         oc, om, ow = bm.filter(tuple(coords), d, w)
+        if twice:
+            fresh = vd.BlockMean(**kw).filter(tuple(coords), d, w)
+            stale = not _same((tuple(oc), om, ow), (tuple(fresh[0]), fresh[1], fresh[2]))
         res = None
     except ValueError:
         res = ("ValueError",)
@@ -94,7 +109,7 @@ def observe_bm(vd, coords, data, weights, kw, tuple1):
     om = list(om) if isinstance(om, tuple) else [om]
     ow = list(ow) if isinstance(ow, tuple) else [ow]
     oc = list(oc)
-    extra = []
+    extra = [np.zeros(1)] if stale else []
     for a in om + ow + oc:
         if np.asarray(a).ndim != 1:
             extra = [np.zeros(1)]
@@ -115,7 +130,9 @@ def make_bm_case(vd, coords, data, weights, kw, kind, expect_valid=True):
     if kw.get("_readonly"):
         for a in list(coords) + list(data) + (list(weights) if weights is not None else []):
             a.flags.writeable = False
-    obs, unchanged = observe_bm(vd, coords, data, weights, kwc, bool(kw.get("_tuple1")))
+    obs, unchanged = observe_bm(vd, coords, data, weights, kwc, bool(kw.get("_tuple1")), bool(kw.get("_twice")))
+    tags = list(kw.get("_layouts") or []) + ["C"] * 16
+    tc, td, tw = tags[:len(coords)], tags[len(coords):len(coords) + len(data)], tags[len(coords) + len(data):]
     cw = "None" if weights is None else "(Some %s)" % _cdll(weights)
     if obs[0] == "ok":
         cobs = "(Some (%s, %s, %s))" % (_cdll(obs[1]), _cdll(obs[2]), _cdll(obs[3]))
@@ -123,8 +140,8 @@ def make_bm_case(vd, coords, data, weights, kw, kind, expect_valid=True):
         cobs = "None"
     else:
         cobs = "None" if expect_valid else "(Some ([], [], []))"
-    term = "c10_case %s %s %s %s %s %s (%s, %s) %s %s %s %s %s" % (
-        cN(probe_ddof(vd)), cD(default_tol(vd)), clist([cZ(v) for v in labels]), _cdll(coords), _cdll(data), cw,
+    term = "c10_case %s %s %s %s %s %s %s %s (%s, %s) %s %s %s %s %s" % (
+        kw.get("_epsd", "eps40"), kw.get("_epsc", "eps40"), cN(probe_ddof(vd)), cD(default_tol(vd)), clist([cZ(v) for v in labels]), _cdll(coords), _cdll(data), cw,
         _cdl(centres[0]), _cdl(centres[1]),
         cbool(kwc.get("center_coordinates", False)), cbool(kwc.get("drop_coords", True)),
         cbool(kwc.get("uncertainty", False)), cbool(unchanged), cobs)
@@ -133,13 +150,17 @@ def make_bm_case(vd, coords, data, weights, kw, kind, expect_valid=True):
         counts[v] = counts.get(v, 0) + 1
     nontrivial = obs[0] == "ok" and len(set(counts.values())) >= 2
     repro = ("import numpy as np, verde; print(verde.BlockMean(**%r).filter((%s,), (%s,), %s))" % (
-        kwc, ", ".join(_fmt(c) for c in coords), ", ".join(_fmt(d) for d in data),
-        "None" if weights is None else "(%s,)" % ", ".join(_fmt(w) for w in weights)))
+        kwc, ", ".join(_fmt(c, t) for c, t in zip(coords, tc)), ", ".join(_fmt(d, t) for d, t in zip(data, td)),
+        "None" if weights is None else "(%s,)" % ", ".join(_fmt(w, t) for w, t in zip(weights, tw))))
+    if kw.get("_twice"):
+        repro += "  # observed on an instance that had filtered other data before (result must equal this fresh call)"
     inp = {"function": "BlockMean.filter", "kwargs": kwc, "coordinates": [np.asarray(c).tolist() for c in coords],
            "data": [np.asarray(d).tolist() for d in data],
            "weights": None if weights is None else [np.asarray(w).tolist() for w in weights],
            "labels_from_block_split": labels, "read_only_inputs": bool(kw.get("_readonly")),
-           "ddof_probed": probe_ddof(vd)}
+           "ddof_probed": probe_ddof(vd),
+           "dtypes": [str(np.asarray(a).dtype) for a in list(coords) + list(data) + (list(weights) if weights is not None else [])],
+           "layouts": kw.get("_layouts"), "instance_reused": bool(kw.get("_twice"))}
     out = [obs[0]] + ([[a.tolist() for a in o] for o in obs[1:]] if obs[0] == "ok" else list(obs[1:])) + [{"inputs_unchanged": unchanged}]
     return Case(inp, out, term, repro, kind, nontrivial=nontrivial)
 
@@ -148,7 +169,7 @@ def random_bm_config(rnd, vd, i, mode):
     """mode: 'unweighted' | 'uncertainty' | 'wvariance' | 'reject'"""
     box = (rnd.choice([0, -4, 2]), 0, rnd.choice([0, -3, 1]), 0)
     box = (box[0], box[0] + rnd.choice([6, 8, 10]), box[2], box[2] + rnd.choice([5, 8]))
-    layout = rnd.choice(["uniform", "uniform", "clustered", "clustered", "grid"])
+    layout = rnd.choice(["uniform", "uniform", "clustered", "clustered", "grid", "grid"])
     shape2d = None
     if layout == "grid":
         a, b = rnd.randint(2, 6), rnd.randint(2, 8)
@@ -161,23 +182,36 @@ def random_bm_config(rnd, vd, i, mode):
     else:
         n = rnd.choice([1, 2, 3, 5, 8, 13, 21, 34, 48, 60]) if i % 6 == 0 else rnd.randint(4, 60)
         east, north = _cloud(rnd, layout, n, box)
-        if rnd.random() < 0.25:
+        if rnd.random() < 0.35:
             for a, b in [(a, b) for a in range(2, 9) for b in range(2, 9) if a * b == n][:1]:
                 shape2d = (a, b)
     ncomp = rnd.choice([1, 1, 2, 3])
     nextra = rnd.choice([0, 0, 1])
-    vals = _distinct_values(rnd, n * ncomp, 4, -30, 30)
-    data = [np.array(vals[c * n:(c + 1) * n]) for c in range(ncomp)]
-    extra = [np.array(_distinct_values(rnd, n, 8, -60, 60)) for c in range(nextra)]
-    coords = [np.array(east, dtype=float), np.array(north, dtype=float)] + extra
     kw = {}
+    dt = rnd.choice([np.int64, np.int32, np.float32]) if rnd.random() < 0.3 else None
+    weights = None
+    if dt is not None:
+        # integer-valued data / weights / coordinates in an integer or single-precision dtype
+        int_coords = rnd.random() < 0.4 and layout != "grid"
+        coords, data, weights = cast_variant(rnd, n, ncomp, nextra, box, mode in ("uncertainty", "wvariance"), dt,
+                                             int_coords, east, north)
+        if dt is np.float32:
+            kw["_epsd"] = "eps20"
+            if int_coords or nextra:
+                kw["_epsc"] = "eps20"
+    else:
+        vals = _distinct_values(rnd, n * ncomp, 4, -30, 30)
+        data = [np.array(vals[c * n:(c + 1) * n]) for c in range(ncomp)]
+        extra = [np.array(_distinct_values(rnd, n, 8, -60, 60)) for c in range(nextra)]
+        coords = [np.array(east, dtype=float), np.array(north, dtype=float)] + extra
     if rnd.random() < 0.55:
         kw["spacing"] = rnd.choice([1.5, 2, 2.5, 3, 4, (2, 3), (3, 1.5), 20])
         if rnd.random() < 0.3:
             kw["adjust"] = "region"
     else:
         kw["shape"] = (rnd.randint(1, 6), rnd.randint(1, 6))
-    degenerate = n == 1 or len(set(east)) == 1 or len(set(north)) == 1
+    e0, n0 = np.ravel(coords[0]), np.ravel(coords[1])
+    degenerate = n == 1 or len(set(e0.tolist())) == 1 or len(set(n0.tolist())) == 1
     if rnd.random() < 0.5 or degenerate:
         if rnd.random() < 0.3:
             kw["region"] = (box[0] - 2, box[1] + 3, box[2] - 1, box[3] + 2)
@@ -186,8 +220,7 @@ def random_bm_config(rnd, vd, i, mode):
     kw["center_coordinates"] = rnd.random() < 0.4
     kw["drop_coords"] = rnd.random() < 0.5
     kw["uncertainty"] = mode in ("uncertainty", "reject")
-    weights = None
-    if mode in ("uncertainty", "wvariance"):
+    if mode in ("uncertainty", "wvariance") and dt is None:
         weights = []
         for c in range(ncomp):
             wv = _distinct_values(rnd, n, 16, 0.0625, 8)
@@ -206,10 +239,21 @@ def random_bm_config(rnd, vd, i, mode):
             _fix_weights(weights, [int(v) for v in np.ravel(labels)])
         except Exception:
             pass
+    if shape2d is not None and rnd.random() < 0.7:
+        # the same logical arrays in different memory layouts, a different one per array
+        nw = 0 if weights is None else len(weights)
+        tags = [rnd.choice(LAYOUTS) for _ in range(len(coords) + len(data) + nw)]
+        kw["_layouts"] = tags
+        coords = [apply_layout(c, t) for c, t in zip(coords, tags)]
+        data = [apply_layout(d, t) for d, t in zip(data, tags[len(coords):])]
+        if weights is not None:
+            weights = [apply_layout(w, t) for w, t in zip(weights, tags[len(coords) + len(data):])]
     if ncomp == 1 and rnd.random() < 0.3:
         kw["_tuple1"] = True
     if rnd.random() < 0.35:
         kw["_readonly"] = True
+    if rnd.random() < 0.25:
+        kw["_twice"] = True
     return coords, data, weights, kw
 
 
@@ -243,6 +287,31 @@ def bm_edge_cases(vd):
                 out.append((c(), [d1.copy(), d0.copy()], None, dict({k: v for k, v in kw.items() if k != "spacing"}, shape=(1, 1)), "bm-edge-unweighted"))
                 out.append(([A([1.0]), A([1.0]), A([5.0])], [A([2.5])], None, dict(kw, spacing=1, region=(0, 2, 0, 2)), "bm-edge-unweighted"))
                 out.append(([A([1.0]), A([1.0]), A([5.0])], [A([2.5])], [A([0.5])], dict(kw, spacing=1, region=(0, 2, 0, 2)), "bm-edge-wvariance"))
+    # integer-valued data / weights / coordinates in integer and single-precision dtypes (block means, weighted
+    # means and variances of integers are not whole numbers), mixed memory layouts for 2-D inputs, reused instances
+    ei = A([0, 0, 1, 1, 1, 2, 0, 0, 1, 2, 2, 2, 2]); ni = A([0, 0, 0, 0, 0, 0, 1, 1, 1, 1, 1, 1, 1])
+    di = A([3, 8, 1, 2, 12, 5, 7, 10, -4, 1, 2, 4, 10]); dj = A([-7, 2, 30, 11, 9, 6, 1, 0, 8, 21, 3, 5, 14])
+    wi = A([1, 2, 3, 1, 2, 1, 5, 2, 1, 1, 0, 3, 2]); wj = A([2, 1, 1, 4, 0, 3, 1, 1, 2, 7, 1, 1, 2])
+    ui = A([10, 30, 20, 60, 50, 40, 70, 90, 80, 100, 120, 110, 131])
+    e2 = np.arange(12).reshape(3, 4) % 4; n2 = np.arange(12).reshape(3, 4) // 4
+    d2 = A([[5, 2, 9, 4], [7, 12, 1, 0], [3, 8, 6, 11]]); w2 = A([[1, 2, 1, 3], [2, 2, 5, 1], [4, 1, 1, 2]])
+    for dt in (np.int64, np.int32, np.float32):
+        eps = {"_epsd": "eps20", "_epsc": "eps20"} if dt is np.float32 else {}
+        name = np.dtype(dt).name
+        for center in (False, True):
+            for twice in (False, True):
+                kw = dict(eps, center_coordinates=center, drop_coords=False, spacing=1, region=(-0.5, 2.5, -0.5, 1.5), _twice=twice)
+                hc = lambda: [ei.astype(dt), ni.astype(dt), ui.astype(dt)] if twice else [ei + 0.0, ni + 0.0, ui.astype(dt)]
+                out.append((hc(), [di.astype(dt), dj.astype(dt)], None, dict(kw), "bm-edge-unweighted-" + name))
+                out.append((hc(), [di.astype(dt), dj.astype(dt)], [wi.astype(dt), wj.astype(dt)], dict(kw), "bm-edge-wvariance-" + name))
+                out.append((hc(), [di.astype(dt), dj.astype(dt)], [wi.astype(dt), wj.astype(dt)], dict(kw, uncertainty=True), "bm-edge-uncertainty-" + name))
+        for k, unc in enumerate((None, False, True)):
+            tags = [LAYOUTS[(k + j) % 5] for j in range(1, 7)]
+            kw = dict(eps, spacing=2, region=(-0.5, 3.5, -0.5, 2.5), drop_coords=False, _layouts=tags, uncertainty=bool(unc))
+            arrs = [e2 + 0.0, n2 + 0.0, (d2 * 3).astype(dt), d2.astype(dt), (d2 * d2).astype(dt), w2.astype(dt), (w2 * 2 + 1).astype(dt)]
+            arrs = [apply_layout(a, t) for a, t in zip(arrs, tags + ["F"])]
+            out.append((arrs[:3], arrs[3:5], None if unc is None else arrs[5:7], kw,
+                        "bm-edge-%s-%s" % ("unweighted" if unc is None else ("uncertainty" if unc else "wvariance"), name)))
     return out
 
 
@@ -257,12 +326,13 @@ def bm_malformed(vd):
 # ---------------------------------------------------------------------------
 # variance_to_weights
 # ---------------------------------------------------------------------------
-def make_v2w_case(vd, comps, tol, form, readonly, kind="v2w"):
+def make_v2w_case(vd, comps, tol, form, readonly, kind="v2w", tags=None):
     """comps: list of numpy arrays (float or int); form: 'array' | 'list' (single component given bare or as nested lists),
     tuples are used when there is more than one component or form ends with '-tuple'"""
     dtol = default_tol(vd)
     t = dtol if tol is None else tol
-    arrays = [np.array(c) for c in comps]
+    tags = list(tags or []) + ["C"] * len(comps)
+    arrays = [apply_layout(np.array(c), t) for c, t in zip(comps, tags)]
     if readonly:
         for a in arrays:
             a.flags.writeable = False
@@ -282,16 +352,16 @@ def make_v2w_case(vd, comps, tol, form, readonly, kind="v2w"):
     unchanged = all(a.tobytes() == b for a, b in zip(arrays, before))
     tuple_ok = status == "ok" and (is_tuple == (len(arrays) != 1))
     shp = lambda l: clist([clist([cN(s) for s in np.shape(a)]) for a in l])
-    term = "c10_v2w_case %s %s %s %s %s %s %s" % (
-        cD(t), clist([clist([_cod(v) for v in np.ravel(a)]) for a in arrays]), shp(arrays), shp(outs),
+    term = "c10_v2w_case %s %s %s %s %s %s %s %s" % (
+        "eps20 eps20" if any(a.dtype == np.float32 for a in arrays) else "eps40 eps50", cD(t), clist([clist([_cod(v) for v in np.ravel(a)]) for a in arrays]), shp(arrays), shp(outs),
         cbool(tuple_ok), cbool(unchanged), clist([_cdl(np.asarray(o, dtype=float)) for o in outs]))
     flat = [float(v) for a in arrays for v in np.ravel(a)]
     nontrivial = status == "ok" and any(v > t for v in flat) and any((not v > t) for v in flat)
     repro = "import numpy as np, verde; nan = np.nan; print(verde.variance_to_weights(%s%s))" % (
-        repr(tuple(a.tolist() for a in arrays)) if isinstance(arg, tuple) else repr(arrays[0].tolist()),
+        ("(%s,)" % ", ".join(_fmt(a, t) for a, t in zip(arrays, tags))) if isinstance(arg, tuple) else _fmt(arrays[0], tags[0]),
         "" if tol is None else ", tol=%r" % tol)
     inp = {"function": "variance_to_weights", "variance": [a.tolist() for a in arrays], "tol": tol, "given_as": form,
-           "read_only": readonly, "dtype": [str(a.dtype) for a in arrays]}
+           "read_only": readonly, "dtype": [str(a.dtype) for a in arrays], "layouts": tags[:len(arrays)]}
     out = [status, [np.asarray(o, dtype=float).tolist() for o in outs], {"inputs_unchanged": unchanged, "tuple": is_tuple}]
     return Case(inp, out, term, repro, kind, nontrivial=nontrivial)
 
@@ -342,7 +412,29 @@ def v2w_cases(rnd, vd, count):
             else:
                 comps.append(np.array(v2w_values(rnd, t if t > 0 else 1e-15, rnd.randint(0, 12)), dtype=float))
         form = rnd.choice(["array", "array", "list", "array-tuple", "list-tuple"])
-        out.append(make_v2w_case(vd, comps, tol, form, rnd.random() < 0.4))
+        out.append(make_v2w_case(vd, comps, tol, form, rnd.random() < 0.4,
+                                 tags=[rnd.choice(LAYOUTS) for _ in comps] if not form.startswith("list") else None))
+    # single-precision and integer variance arrays (values away from the tolerance: numpy compares a
+    # float32 array with float32(tol)), 1-D and 2-D in mixed layouts
+    for i in range(max(20, count // 6)):
+        dt = [np.float32, np.int64, np.int32][i % 3]
+        tol = rnd.choice([None, None, 0.0, 0.5, 2.0])
+        comps = []
+        for c in range(rnd.choice([1, 1, 2, 3])):
+            m = rnd.randint(1, 12)
+            if dt is np.float32:
+                vals = [rnd.choice([0.0, float("nan"), -1.0, 1e-30, rnd.randint(1, 4000) / 64.0, rnd.randint(1, 4000) / 64.0,
+                                    float(rnd.randint(3, 500))]) for _ in range(m)]
+            else:
+                vals = [rnd.choice([0, 0, rnd.randint(3, 500), rnd.randint(3, 500), -2]) for _ in range(m)]
+            a = np.array(vals).astype(dt)
+            if rnd.random() < 0.4:
+                for r_, c_ in [(r_, c_) for r_ in range(2, 5) for c_ in range(2, 5) if r_ * c_ == m][:1]:
+                    a = a.reshape(r_, c_)
+            comps.append(a)
+        form = rnd.choice(["array", "array", "array-tuple"])
+        out.append(make_v2w_case(vd, comps, tol, form, rnd.random() < 0.4, tags=[rnd.choice(LAYOUTS) for _ in comps],
+                                 kind="v2w-" + np.dtype(dt).name))
     return out
 
 
@@ -361,7 +453,15 @@ def generate(tier, seed):
     for i in range(n_rand):
         mode = modes[i % len(modes)]
         coords, data, weights, kw = random_bm_config(rnd, vd, i, mode)
-        cases.append(make_bm_case(vd, coords, data, weights, kw, "bm-" + mode))
+        kind = "bm-" + mode
+        dts = {str(np.asarray(a).dtype) for a in data}
+        if dts != {"float64"}:
+            kind += "-" + sorted(dts)[0]
+        elif kw.get("_layouts"):
+            kind += "-layouts"
+        elif kw.get("_twice"):
+            kind += "-reused"
+        cases.append(make_bm_case(vd, coords, data, weights, kw, kind))
     cases.extend(v2w_cases(rnd, vd, 250 if tier == "quick" else 2400))
     return cases
 
